@@ -12,6 +12,9 @@
      * C16_kepler_iff_stationary (+ _atan2, C16_root_gives_stationary_t): over the reals, for h <> 0, the equation
        E - e sin E = M that the code solves, with the code's theta, E, M, e, n (branch and sign conventions
        included), is exactly  d/dt |helix(t) - p|^2 = 0;  explicit derivative, Coquelicot.
+     * C16_M_range, C16_root_is_global_min, C16_newton_step_invariant: over the reals, M lies in (-pi, pi]; the root
+       bracketed from the code's start value E0 = +-pi gives the GLOBAL minimum of the distance over the whole helix;
+       an exact Newton step keeps the bracket (monotone iteration).
      * C16_circle_case: for h = 0 the squared distance is R^2 + rho^2 + dz^2 - 2 R rho cos(t - ts) with
        ts = atan2(det, dot) as in the code, so ts is a global minimiser and stationary, and ts in (-pi, pi].
      * C16_closest_t_range_partial: over binary64 (Coq's primitive floats, the executable model the differential
@@ -74,6 +77,37 @@ Theorem C16_circle_case : forall (H : rhelix) (u v w : R),
   /\ - PI < ts <= PI.
 Proof. exact circle_case_lemma. Qed.
 Print Assumptions C16_circle_case.
+
+(* reconstruction.rs:178-180: the branch selection n = floor(temp / 2 pi) puts M into (-pi, pi] *)
+Theorem C16_M_range : forall (H : rhelix) (w delta : R), - PI < k_M H w delta <= PI.
+Proof. exact k_M_range. Qed.
+Print Assumptions C16_M_range.
+
+(* exact arithmetic: the root of E - e sin E = M that is bracketed from the code's start value (E0 = pi for M >= 0 with
+   f >= 0 on [E, pi]; E0 = -pi for M <= 0 with f <= 0 on [-pi, E]) yields, through reconstruction.rs:205, a t at which the
+   distance to the point is minimal over ALL t (the whole infinite helix, hence also t in [-pi, pi]):
+   the comment "If t is within the range, then it is the actual global minimum" of the source, over R.
+   What is NOT proved is that 20 binary64 Newton steps through glibc reach that root to within 1e-9 m. *)
+Theorem C16_root_is_global_min : forall (H : rhelix) (u v w delta Es : R),
+  h H <> 0 -> 0 <= rho H ->
+  polar (u - x0 H) (v - y0 H) (k_r H u v) delta ->
+  let e := k_e H u v in
+  let M := k_M H w delta in
+  kepler_f Es e M = 0 ->
+  (0 <= M /\ 0 <= Es <= PI /\ (forall x, Es <= x <= PI -> 0 <= kepler_f x e M)
+   \/ M <= 0 /\ - PI <= Es <= 0 /\ (forall x, - PI <= x <= Es -> kepler_f x e M <= 0)) ->
+  forall t, dist2 H u v w (t_of_E H w delta Es) <= dist2 H u v w t.
+Proof. exact root_is_global_min_lemma. Qed.
+Print Assumptions C16_root_is_global_min.
+
+(* exact arithmetic: one Newton step of reconstruction.rs:198 from a point right of the root r (where f >= 0, f' > 0)
+   stays in [r, x]: the iteration from E0 = pi is monotone and keeps the bracket of C16_root_is_global_min *)
+Theorem C16_newton_step_invariant : forall e M r x : R,
+  0 <= e -> 0 <= r -> r <= x <= PI ->
+  kepler_f r e M = 0 -> 0 <= kepler_f x e M -> 0 < 1 - e * cos x ->
+  r <= x - kepler_f x e M / (1 - e * cos x) <= x.
+Proof. exact newton_step_invariant. Qed.
+Print Assumptions C16_newton_step_invariant.
 
 (* non-vacuity: a helix with h <> 0 and one with h = 0; the hypotheses of the theorems are satisfiable *)
 Example C16_nonvacuous_kepler :
